@@ -20,6 +20,10 @@ on every run. Every statement holds for every field `K` and every shape paramete
   (`bit = 1`); the other half (the sibling) is unconstrained.
 * `arity4Hot_onehot`, `arity4Place_iff` — arity 4: with boolean bits and the product column, `h_k` is the
   indicator of `k = bit + 2·bit2`, and the placement constraints vanish iff chunk `pos` carries the digest.
+* `arity4Hot_onehot_iff`, `arity4_window_selectors` — the position vector of an arity-4 row is one-hot iff BOTH direction
+  cells are boolean and the helper is their product; every accepted window has that on its local row.
+  `arity4Hot_bit2_free`, `arity4_forged_place`, `accCons4_forged` — necessity: with only `b0` and `b0·b1` boolean the
+  weights `(1 − t, 0, t, 0)` pass placement (digest in chunks 0 and 2) and accumulator (`4·prev + 2t`).
 * `generic_window_iff` — the whole generic-layout window: every control constraint vanishes iff the local
   bit is boolean, the chained limbs are copied, the placement holds and the accumulator steps.
 * `zero_prep_accepts` — a next preprocessed row of zeros (padding) accepts every pair of rows (given the
@@ -536,6 +540,108 @@ theorem generic_chain_start_free (L : PosLayout) (tr : K) (loc nxt : PosRow K) (
   · rw [forall_singleton, hns]; exact accCons2_reset _ _ _ _ _
 
 end Window
+
+/-! ### selector cells of arity 4: both booleanity checks and the product tie are needed
+
+The position weights `h_k` are *linear* in the three prover cells `(mmcs_bit, mmcs_bit2, mmcs_bit_x_bit2)`, so the
+placement gates alone accept any affine combination. `arity4Hot_onehot_iff`: the weight vector is one-hot exactly when
+BOTH direction cells are boolean and the helper is their product — `arity4Hot_onehot` needs all three hypotheses.
+`arity4Hot_bit2_free` / `arity4_forged_place` / `accCons4_forged`: with only `b0` and `b0·b1` boolean (the booleanity of the
+high direction cell asserted on the helper instead: seed C11-d) the row `b0 = 0, b1 = t, b0b1 = 0` passes, its weights are
+`(1 − t, 0, t, 0)`, the placement gates hold as soon as chunks 0 and 2 both carry the digest, and the accumulator takes
+`4·prev + 2t`: the coordinated forgery the harness builds (`forge_selector` in harness/src/c11p_chain.rs). -/
+
+section Selectors
+variable {K : Type} [Field K]
+
+/-- the three selector cells are recovered linearly from the position weights, which always sum to 1 -/
+theorem arity4Hot_bits (r : PosRow K) :
+    r.bit = arity4Hot r 1 + arity4Hot r 3 ∧ r.bit2 = arity4Hot r 2 + arity4Hot r 3 ∧ r.bitProd = arity4Hot r 3 ∧
+      arity4Hot r 0 + arity4Hot r 1 + arity4Hot r 2 + arity4Hot r 3 = 1 := by
+  simp only [arity4Hot]
+  refine ⟨by ring, by ring, trivial, by ring⟩
+
+/-- **One-hot position ⇔ both direction cells boolean and the helper is their product.** None of the three checks of
+`eval_arity4` on the selector cells can be dropped or moved to another cell. -/
+theorem arity4Hot_onehot_iff (r : PosRow K) :
+    (∃ pos < 4, ∀ k < 4, arity4Hot r k = if k = pos then 1 else 0) ↔
+      (r.bit = 0 ∨ r.bit = 1) ∧ (r.bit2 = 0 ∨ r.bit2 = 1) ∧ r.bitProd = r.bit * r.bit2 := by
+  constructor
+  · rintro ⟨pos, hpos, h⟩
+    obtain ⟨hb, hb2, hp, _⟩ := arity4Hot_bits r
+    have h1 := h 1 (by omega)
+    have h2 := h 2 (by omega)
+    have h3 := h 3 (by omega)
+    have hc : pos = 0 ∨ pos = 1 ∨ pos = 2 ∨ pos = 3 := by omega
+    rw [hp, hb, hb2]
+    rcases hc with rfl | rfl | rfl | rfl <;> simp at h1 h2 h3 <;> simp [h1, h2, h3]
+  · rintro ⟨hb, hb2, hp⟩
+    have key : ∀ (b b2 : Bool), r.bit = (if b then 1 else 0) → r.bit2 = (if b2 then 1 else 0) →
+        ∃ pos < 4, ∀ k < 4, arity4Hot r k = if k = pos then 1 else 0 := by
+      intro b b2 e e2
+      refine ⟨b.toNat + 2 * b2.toNat, by cases b <;> cases b2 <;> simp, fun k hk => ?_⟩
+      exact arity4Hot_onehot r b b2 e e2 hp k hk
+    rcases hb with hb | hb <;> rcases hb2 with hb2 | hb2
+    · exact key false false (by simpa using hb) (by simpa using hb2)
+    · exact key false true (by simpa using hb) (by simpa using hb2)
+    · exact key true false (by simpa using hb) (by simpa using hb2)
+    · exact key true true (by simpa using hb) (by simpa using hb2)
+
+/-- every window the arity-4 table accepts has, on its LOCAL row, boolean direction cells, a consistent helper and a
+one-hot position vector (the three head constraints of `arity4Constraints` are unconditional) -/
+theorem arity4_window_selectors (L : PosLayout) (tr : K) (loc nxt : PosRow K) (pn : List K)
+    (h : ∀ c ∈ arity4Constraints L tr loc nxt pn, c = 0) :
+    (loc.bit = 0 ∨ loc.bit = 1) ∧ (loc.bit2 = 0 ∨ loc.bit2 = 1) ∧ loc.bitProd = loc.bit * loc.bit2 ∧
+      ∃ pos < 4, ∀ k < 4, arity4Hot loc k = if k = pos then 1 else 0 := by
+  have h0 := h (boolCons loc.bit) (by simp [arity4Constraints])
+  have h1 := h (boolCons loc.bit2) (by simp [arity4Constraints])
+  have h2 := h (loc.bitProd - loc.bit * loc.bit2) (by simp [arity4Constraints])
+  have hb := (boolCons_iff _).mp h0
+  have hb2 := (boolCons_iff _).mp h1
+  have hp : loc.bitProd = loc.bit * loc.bit2 := sub_eq_zero.mp h2
+  exact ⟨hb, hb2, hp, (arity4Hot_onehot_iff loc).mpr ⟨hb, hb2, hp⟩⟩
+
+/-- **Necessity of the check on the high direction cell.** The row `b0 = 0, b1 = t, b0b1 = 0` passes booleanity of
+`b0`, booleanity of the helper `b0·b1` and the product tie, for every `t`; its position weights are `(1 − t, 0, t, 0)`. -/
+theorem arity4Hot_bit2_free (t s : K) (inp out : List K) :
+    let r : PosRow K := ⟨inp, out, 0, t, 0, s⟩
+    boolCons r.bit = 0 ∧ boolCons r.bitProd = 0 ∧ r.bitProd - r.bit * r.bit2 = 0 ∧
+      arity4Hot r 0 = 1 - t ∧ arity4Hot r 1 = 0 ∧ arity4Hot r 2 = t ∧ arity4Hot r 3 = 0 := by
+  simp [boolCons, arity4Hot]
+
+/-- … and for `t ∉ {0, 1}` that vector is not one-hot: the row is no Merkle step -/
+theorem arity4Hot_bit2_free_not_onehot (t s : K) (inp out : List K) (h0 : t ≠ 0) (h1 : t ≠ 1) :
+    ¬ ∃ pos < 4, ∀ k < 4, arity4Hot (⟨inp, out, 0, t, 0, s⟩ : PosRow K) k = if k = pos then 1 else 0 := by
+  rw [arity4Hot_onehot_iff]
+  rintro ⟨_, hb2 | hb2, _⟩
+  · exact h0 hb2
+  · exact h1 hb2
+
+/-- the placement gates accept weights `(1 − t, 0, t, 0)` as soon as chunks 0 and 2 BOTH carry the previous digest -/
+theorem arity4_forged_place (D CE : Nat) (tr : K) (msel : Nat → K) (loc nxt : PosRow K)
+    (hb : nxt.bit = 0) (hp : nxt.bitProd = 0)
+    (hc0 : ∀ slot < CE, ∀ d < D, pget nxt.inp ((0 * CE + slot) * D + d) = pget loc.out (slot * D + d))
+    (hc2 : ∀ slot < CE, ∀ d < D, pget nxt.inp ((2 * CE + slot) * D + d) = pget loc.out (slot * D + d)) :
+    ∀ c ∈ arity4Place D CE tr msel loc nxt, c = 0 := by
+  unfold arity4Place
+  rw [forall_flatMap_range]
+  intro k hk
+  rw [forall_flatMap_range]
+  intro slot hs
+  rw [forall_map_range]
+  intro d hd
+  have hc : k = 0 ∨ k = 1 ∨ k = 2 ∨ k = 3 := by omega
+  rcases hc with rfl | rfl | rfl | rfl
+  · rw [hc0 slot hs d hd]; simp [chainCons]
+  · simp [arity4Hot, hb, hp, chainCons]
+  · rw [hc2 slot hs d hd]; simp [chainCons]
+  · simp [arity4Hot, hp, chainCons]
+
+/-- the base-4 accumulator follows the forged high cell: `4·prev + 0 + 2t` -/
+theorem accCons4_forged (tr ns mp l t : K) : accCons4 tr ns mp l (4 * l + 2 * t) 0 t = 0 := by
+  unfold accCons4; ring
+
+end Selectors
 
 /-! ### non-vacuity -/
 
